@@ -183,9 +183,39 @@ func foreignError(p *Prog, v ssa.Value, seen map[ssa.Value]bool) string {
 			return ""
 		}
 	case *ssa.Parameter:
-		return "parameter " + x.Name()
+		return viaCallers(p, x, seen, foreignError)
 	}
 	return "value of unknown origin " + v.Name()
+}
+
+// viaCallers follows a parameter of an unexported module function to the
+// actual arguments at all of its call sites.
+func viaCallers(p *Prog, par *ssa.Parameter, seen map[ssa.Value]bool, f func(*Prog, ssa.Value, map[ssa.Value]bool) string) string {
+	fn := par.Parent()
+	if fn.Object() != nil && fn.Object().Exported() {
+		return "parameter " + par.Name() + " of exported " + funcName(fn)
+	}
+	idx := -1
+	for i, q := range fn.Params {
+		if q == par {
+			idx = i
+		}
+	}
+	if p.we == nil {
+		p.we = newWE(p)
+	}
+	sites := p.we.callers[fn]
+	if idx < 0 || len(sites) == 0 {
+		return "parameter " + par.Name() + " of " + funcName(fn) + " (no call site seen)"
+	}
+	for _, cs := range sites {
+		if idx < len(cs.Call.Common().Args) {
+			if w := f(p, cs.Call.Common().Args[idx], seen); w != "" {
+				return w
+			}
+		}
+	}
+	return ""
 }
 
 // foreignJoinOperand looks at the []error passed to errors.Join.
@@ -230,6 +260,8 @@ func foreignJoinOperand(p *Prog, v ssa.Value, seen map[ssa.Value]bool) string {
 		}
 	case *ssa.MakeSlice:
 		return ""
+	case *ssa.Parameter:
+		return viaCallers(p, x, seen, foreignJoinOperand)
 	}
 	return "errors.Join of a list of unknown origin"
 }
